@@ -355,7 +355,9 @@ Fixpoint parse_frow (sp : ref) (r : frow) (a : pstate) {struct r} : M pstate :=
       with_ctx lbl_row (
         let* c1 := match fid with [] => ret (p_cont a) | _ => lift_rec_f (p_cont a) f (Some (Given fid)) end  in
         let* u := node_uuid nid  in
-        ret (mkP (p_nodes a ++ [(u, AEnter f (opt_given fid))]) c1))
+        (* EnterFlowNode(row.mainarg_flow_name, uuid=node_uuid): the action's flow reference gets NO
+           uuid here; obj_id only reaches the container's dictionary, assign_global_uuids fills it in *)
+        ret (mkP (p_nodes a ++ [(u, AEnter f None)]) c1))
   | FFor var items body =>
       let* _ := with_ctx lbl_row (ret tt)  in                       (* the begin_for row is parsed *)
       let* a1 := (fix iter (its : list str) (a : pstate) {struct its} : M pstate :=
